@@ -162,6 +162,11 @@ func c19Attempt(kind string, c constSpec, n int64) (string, bool) {
 		return fmt.Sprintf("for %s = 3 { }", C), true
 	case "loop-list":
 		return fmt.Sprintf("for %s = [7, 8, 9] { }", C), true
+	case "loop-int-read":
+		// the body reads the name: it must read the constant (or the loop must fail), in both register modes
+		return fmt.Sprintf("for %s = %d { println(\"in loop:\", %s) }", C, 2+n%3, C), true
+	case "loop-list-read":
+		return fmt.Sprintf("for %s = [7, 8] { println(\"in loop:\", %s) }", C, C), true
 	case "loop-int-self":
 		// the loop's first value is the constant's own value: re-binding to an equal value is allowed, the following
 		// iterations are not
@@ -238,7 +243,7 @@ func c19Attempt(kind string, c constSpec, n int64) (string, bool) {
 }
 
 var c19Kinds = []string{"assign", "define", "incr-post", "incr-pre", "decr-post", "decr-pre", "idx-assign", "dot-assign", "new-key", "del-elem", "del-elem-idx",
-	"loop-int", "loop-list", "loop-int-self", "loop-int-deep", "loop-list-self", "param", "param-func", "nested-assign", "nested-define", "nested-idx", "loop-assign", "self-append", "catch-assign",
+	"loop-int", "loop-list", "loop-int-read", "loop-list-read", "loop-int-self", "loop-int-deep", "loop-list-self", "param", "param-func", "nested-assign", "nested-define", "nested-idx", "loop-assign", "self-append", "catch-assign",
 	"alias-idx", "callee-mutates", "nested-elem", "slow-idx", "same-value", "equal-other-type"}
 
 func (c19) Generate(r *core.Rng, run int, tier string) *core.History {
@@ -384,9 +389,22 @@ func (c c19) Execute(h *core.History) *core.Outcome {
 			st.Nontrivial = true
 		}
 		var viol *core.Violation
-		if e.Fault == nil && a.Class != b.Class {
+		if e.Fault == nil && (a.Class != b.Class || a.Out != b.Out) {
 			viol = &core.Violation{Oracle: "register-modes-disagree", Event: i, Sig: fmt.Sprintf("C19|modes|%s|%s|%s", e.Tag, e.Key, e.Val),
-				Detail: fmt.Sprintf("attempt %q: registers on -> %s %v, registers off -> %s %v", e.Text, a.Class, truncAll(a.Errs), b.Class, truncAll(b.Errs))}
+				Detail: fmt.Sprintf("attempt %q: registers on -> %s %v out=%q, registers off -> %s %v out=%q", e.Text, a.Class, truncAll(a.Errs), trunc(a.Out, 100), b.Class, truncAll(b.Errs), trunc(b.Out, 100))}
+		}
+		if strings.HasSuffix(e.Tag, "-read") && viol == nil {
+			// whatever the loop printed for the name must be the constant's printed value
+			ref := on.Input("println(\"in loop:\", "+e.Name+")", nil)
+			off.Input("println(\"in loop:\", "+e.Name+")", nil)
+			want := strings.TrimSpace(ref.Out)
+			for _, line := range strings.Split(strings.TrimSpace(a.Out), "\n") {
+				if line != "" && line != want {
+					viol = &core.Violation{Oracle: "constant-changed", Event: i, Sig: fmt.Sprintf("C19|changed|%s|%s|%s", e.Tag, e.Key, e.Val),
+						Detail: fmt.Sprintf("attempt %q: inside the loop the name reads %q, the constant prints as %q", e.Text, line, want)}
+					break
+				}
+			}
 		}
 		for _, name := range sortedKeys(bound) {
 			want := bound[name]
